@@ -6,7 +6,8 @@
 
 #include "parameters.h"
 
-static char *tokenise_by_commas_and_whitespace(char *list);
+static char *tokenise_by_commas(char *list);
+static char *remove_whitespace_from(char *list);
 static char *skip_nulls_until(char *pointer, char *pointer_end);
 static char *end_of_token(char *token);
 static char *strip_function_from(char *token, const char *function_name);
@@ -31,10 +32,12 @@ CgreenVector *create_vector_of_names(const char *parameters) {
         return names;
     }
 
+    /* white space can occur anywhere the preprocessor saw some, also inside 'box_double( x )' */
+    remove_whitespace_from(parameters_to_tokenize);
     parameters_end = parameters_to_tokenize + strlen(parameters_to_tokenize);
-    tokens = tokenise_by_commas_and_whitespace(parameters_to_tokenize);
+    tokens = tokenise_by_commas(parameters_to_tokenize);
     token = tokens;
-    while (token < tokens + strlen(parameters)) {
+    while (token < parameters_end) {
         token = skip_nulls_until(token, parameters_end);
         int length_of_token = strlen(token);
         token = strip_function_from(token, "box_double");
@@ -70,13 +73,15 @@ CgreenVector *create_vector_of_double_markers_for(const char *parameters) {
         return markers;
     }
 
+    /* white space can occur anywhere the preprocessor saw some, also inside 'box_double( x )' */
+    remove_whitespace_from(parameters_to_tokenize);
     parameters_end = parameters_to_tokenize + strlen(parameters_to_tokenize);
-    tokens = tokenise_by_commas_and_whitespace(parameters_to_tokenize);
+    tokens = tokenise_by_commas(parameters_to_tokenize);
     token = tokens;
-    while (token < tokens + strlen(parameters)) {
+    while (token < parameters_end) {
         token = skip_nulls_until(token, parameters_end);
         int length_of_token = strlen(token);
-        if (begins_with(token, "box_double"))
+        if (begins_with(token, "box_double("))
             cgreen_vector_add(markers, pointer_to_bool(true));
         else
             cgreen_vector_add(markers, pointer_to_bool(false));
@@ -89,14 +94,27 @@ CgreenVector *create_vector_of_double_markers_for(const char *parameters) {
     return markers;
 }
 
-static char *tokenise_by_commas_and_whitespace(char *list) {
+static char *tokenise_by_commas(char *list) {
     size_t i, length;
 
     for (i = 0, length = strlen(list); i < length; i++) {
-        if (isspace((int)list[i]) || list[i] == ',') {
+        if (list[i] == ',') {
             list[i] = '\0';
         }
     }
+
+    return list;
+}
+
+static char *remove_whitespace_from(char *list) {
+    char *source, *destination;
+
+    for (source = destination = list; *source != '\0'; source++) {
+        if (!isspace((int)*source)) {
+            *destination++ = *source;
+        }
+    }
+    *destination = '\0';
 
     return list;
 }
